@@ -230,9 +230,9 @@ def run_canaries(mod, tier, seed):
     """Each canary must produce at least one obligation that is not proved.  Returns list of results."""
     out = []
     cans = getattr(mod, "CANARIES", [])
-    if tier == "quick":
-        cans = cans[:1]
     for c in cans:
+        if tier == "quick" and any(not r.get("skipped") for r in out):
+            break      # quick: one canary per run - the first whose anchor text is still in the function
         source.reset()
         try:
             apply_canary(c)
@@ -306,8 +306,10 @@ def main(mod, tier, seed, replay=None):
     def _known_ob(rid):
         return any(k.get("status") == "known" and k.get("kind", "obligation") == "obligation" and k["match"] in rid for k in known)
     canaries = run_canaries(mod, tier, seed) if not [r for r in failed if not _known_ob(r["id"])] else []
-    for c in canaries:
-        if c.get("skipped"):
+    # a canary whose anchor text is gone (a re-spelled line) is recorded as skipped; the vacuity guard needs at least ONE canary
+    # that could be applied - if none can, the run is UNDECIDED
+    if canaries and all(c.get("skipped") for c in canaries):
+        for c in canaries:
             undecided_msgs.append(f"canary `{c['canary']}` not applicable ({c['skipped']})")
     for c in canaries:
         if not c["killed"]:
